@@ -90,10 +90,8 @@ func c04Check(in c04Input) (key, what string) {
 	}
 	r := rand.New(rand.NewSource(in.Seed))
 	marks := c04Decorate(r, f, in.Dens, in.Kinds)
-	// known finding class (recorded separately): "\n" as the first thing emitted in the file
-	if firstEmissionIsNewline(f) {
-		return "", ""
-	}
+	// ("\n" as the first thing emitted in the file used to make SetLines fail: fixed by 3dd4b07, no
+	// longer excluded)
 	// (d) listing helpers
 	var all []dst.Node
 	reflectPreorder(f, nil, &all)
@@ -313,7 +311,7 @@ func c04Prop(c *Ctx) {
 	}
 	sort.Strings(ph)
 	c.Res.Notes = append(c.Res.Notes, fmt.Sprintf("%d distinct (kind, point) pairs occur in the sources of this run", len(ph)))
-	// the recorded finding: "\n" first in File.Decs.Start
+	// regression input of the fixed finding first-emission-newline: "\n" first in File.Decs.Start
 	c04KnownStartNewline(c)
 }
 
@@ -323,11 +321,12 @@ func c04KnownStartNewline(c *Ctx) {
 		return
 	}
 	f.Decs.Start.Prepend("\n")
-	_, err2, pm := printDst(f)
-	if pm != "" {
-		c.Res.fail("first-emission-newline", "File.Decs.Start beginning with \"\\n\": Fprint panics: "+pm, map[string]string{"src": "package a\n\nvar x int\n", "edit": "File.Decs.Start.Prepend(\"\\n\")"})
+	c.Res.Evaluations++
+	out, err2, pm := printDst(f)
+	// (go/format drops a blank line at the very beginning of a file: only the absence of a failure is checked)
+	if pm != "" || err2 != nil || out != "package a\n\nvar x int\n" {
+		c.Res.fail("c04-first-emission-newline", fmt.Sprintf("File.Decs.Start beginning with \"\\n\": Fprint gives %q, error %v, panic %q", out, err2, pm), map[string]string{"src": "package a\n\nvar x int\n", "edit": "File.Decs.Start.Prepend(\"\\n\")"})
 	}
-	_ = err2
 }
 
 func init() {
